@@ -25,7 +25,13 @@ def programs(tier, seed, rigid):
         p, info = g.diagram(n_boxes=rng.randint(2, 7))
         cases.append((p, info))
     progs = []
-    for p, info in cases:
+    for k_case, (p, info) in enumerate(cases):
+        # a third of the diagrams reach interchange through a double dagger or a full slice: equal
+        # values built by other constructors (other internal containers)
+        if k_case % 3 == 1:
+            p = [G.DAGGER, [G.DAGGER, p]]
+        elif k_case % 3 == 2:
+            p = [G.SLICE, p, [0], []]
         n = len(info[2])
         pairs = [(i, j) for i in range(n) for j in range(n)]
         if n > 4:
